@@ -42,6 +42,7 @@ CONFIGS = [
      "groups": {"a": {"labels": [1], "kind": "plain"}, "b": {"labels": [2, 3], "kind": "merge"}}},
     {"input": "MATCHED_INSTANCE", "matcher": None, "dm": "IOU", "dt": 0.5, "metrics": ["DSC", "IOU", "ASSD", "RVD"]},
     {"input": "MATCHED_INSTANCE", "matcher": None, "global": ["DSC", "ASSD"]},
+    {"input": "UNMATCHED_INSTANCE", "matcher": {"kind": "naive", "metric": "IOU", "thr": 0.5}, "use_default_lists": True},
 ]
 
 
@@ -210,6 +211,11 @@ def run_history(ctx, i, pending):
             with pan.quiet():
                 pan.Panoptica_Evaluator()  # default arguments (shared mutable defaults)
                 pan.EdgeCaseHandler()
+                try:  # an evaluator on the default metric lists whose decision metric is not among them
+                    pan.Panoptica_Evaluator(expected_input=pan.InputType.MATCHED_INSTANCE, decision_metric=pan.Metric.clDSC, decision_threshold=0.5)
+                    pan.Panoptica_Evaluator(global_metrics=[pan.Metric.IOU], decision_metric=pan.Metric.DSC, decision_threshold=0.5)
+                except Exception:  # noqa: BLE001  (a constructor may refuse the combination)
+                    pass
             history.append({"op": "new_default_evaluator"})
         elif op == "aggregator":
             lt = bool(r.random() < 0.5)
